@@ -196,32 +196,34 @@ class BodyMixin:
         body = self.body
         markup: MultipartMarkup = body.ombott_markup
         if markup is None:
-            # should never happen since we check content-type
-            # when reading body
-            raise BodyParsingError()
+            # multipart content type without a boundary parameter
+            self._raise(BodyParsingError(), RequestError)
         elif markup.error is not None:
-            raise markup.error
+            self._raise(markup.error, RequestError)
         listified = set()
-        for item in FieldStorage.iter_items(body, markup.markups, self.config.max_memfile_size):
-            if item.filename:
-                it = FileUpload(
-                    item.file, item.name,
-                    item.filename, item.headers
-                )
-                dct = files
-            else:
-                it = item.value
-                dct = forms
-            key = item.name
+        try:
+            for item in FieldStorage.iter_items(body, markup.markups, self.config.max_memfile_size):
+                if item.filename:
+                    it = FileUpload(
+                        item.file, item.name,
+                        item.filename, item.headers
+                    )
+                    dct = files
+                else:
+                    it = item.value
+                    dct = forms
+                key = item.name
 
-            if key in post:
-                el = post[key]
-                if key not in listified:
-                    el = post[key] = dct[key] = [el]
-                    listified.add(key)
-                el.append(it)
-            else:
-                post[key] = dct[key] = it
+                if key in post:
+                    el = post[key]
+                    if key not in listified:
+                        el = post[key] = dct[key] = [el]
+                        listified.add(key)
+                    el.append(it)
+                else:
+                    post[key] = dct[key] = it
+        except RequestError as err:
+            self._raise(err, RequestError)
         return post
 
     @cache_in('environ[ ombott.request.forms ]', read_only=True)
